@@ -223,6 +223,50 @@ func checkC15(c *Ctx, r *Report) {
 	c.checkConfigBoundsAll(r, cfg)
 	c.checkAttrLookup(r)
 	c.checkSubst(r)
+	c.checkOptionalKey(r)
+}
+
+// checkOptionalKey: where the element injector strips the optional marker "?" from the element name, every
+// storage key must be built from the stripped name (a key containing "?" never exists, so the configured
+// element would be silently ignored).
+func (c *Ctx) checkOptionalKey(r *Report) {
+	inj := c.names().ElemInjector
+	camel := c.names().CamelFn
+	if inj == nil || camel == nil {
+		r.Undecided("C15.optional-key:anchor", "", "element injector or key normaliser not found")
+		return
+	}
+	key := "C15.optional-key:" + fname(inj)
+	var cut *ssa.Call
+	eachInstr(inj, func(in ssa.Instruction) {
+		if call, ok := in.(*ssa.Call); ok && (calleeIs(call, "strings", "", "CutSuffix") || calleeIs(call, "strings", "", "TrimSuffix")) {
+			if k, ok := constString(call.Call.Args[1]); ok && k == "?" {
+				cut = call
+			}
+		}
+	})
+	if cut == nil {
+		r.Fail(key, c.pos(inj.Pos()), "the element injector does not strip the optional marker \"?\" from element names: optional elements are looked up under a key that cannot exist")
+		return
+	}
+	raw := cut.Call.Args[0]
+	var bad []string
+	n := 0
+	eachInstr(inj, func(in ssa.Instruction) {
+		call, ok := in.(*ssa.Call)
+		if !ok || call.Common().StaticCallee() != camel {
+			return
+		}
+		n++
+		if call.Call.Args[0] == raw {
+			bad = append(bad, c.instrPos(in))
+		}
+	})
+	if len(bad) > 0 {
+		r.Fail(key, c.pos(inj.Pos()), "a storage key is built from the element name before its optional marker \"?\" is stripped (%s): the element's configured sub-tree is never found, so bad sub-trees are not rejected and configured optional elements stay nil", strings.Join(bad, ", "))
+	} else {
+		r.OK(key, "%d key computations, all from the element name with the optional marker stripped", n)
+	}
 }
 
 // checkAttrLookup: "configured value, else default, else error" — presence and value of an attribute must come
@@ -1083,6 +1127,7 @@ func (c *Ctx) checkStorageKeys(r *Report, cfg map[*ssa.Function]bool) {
 			}
 			n++
 			var leaves []string
+			depthKeys := 0
 			var walk func(p *PNode)
 			walk = func(p *PNode) {
 				if p == nil {
@@ -1102,8 +1147,27 @@ func (c *Ctx) checkStorageKeys(r *Report, cfg map[*ssa.Function]bool) {
 					if p.Name == "strings.CutSuffix" || p.Name == "strings.TrimSpace" {
 						walk(p.Args[0])
 					}
-				case p.Kind == "path" && (strings.HasPrefix(p.Name, "param:prefix") || strings.HasPrefix(p.Name, "param:typeKey") || strings.HasPrefix(p.Name, "param:k")):
-					// prefixes are themselves built from normalised pieces by the callers (checked at their sites)
+				case p.Kind == "path" && strings.HasPrefix(p.Name, "param:") && !strings.Contains(p.Name, "."):
+					// a string parameter (prefix, type key): built by the callers — checked at every in-module call site;
+					// parameters of exported entry points and of closures are the caller's contract
+					if prm, ok := p.V.(*ssa.Parameter); ok && depthKeys < 3 {
+						fn := prm.Parent()
+						idx := -1
+						for i, q := range fn.Params {
+							if q == prm {
+								idx = i
+							}
+						}
+						for _, cs := range c.callSitesOf(fn) {
+							if idx >= 0 && idx < len(cs.Common().Args) && cs.Parent() != fn {
+								depthKeys++
+								walk(c.prov(cs.Common().Args[idx], &Frame{Fn: cs.Parent()}))
+								depthKeys--
+							}
+						}
+					}
+				case p.Kind == "path" && strings.Contains(p.Name, ").SubKeys("):
+					// names read back from the storage are already normalised
 				case p.Kind == "path" && strings.HasPrefix(p.Name, "free:"):
 					// captured variable: follow the cell in the enclosing function
 					if fv, ok := p.V.(*ssa.UnOp); ok {
